@@ -118,5 +118,15 @@ def run(rep, tier, seed):
 
 
 def replay(obj):
-    print(obj["detail"])
-    return 0
+    import engine
+    prog = streams.fix_prog(obj["replay"]["program"])
+    if "facts" in prog:
+        prog["facts"] = [tuple(f) for f in prog["facts"]]
+        rec = engine.run_cases("fol", "run_fol_program", [prog], jobs=1)[0]
+        rec["prog"], rec["safe_upto"] = prog, len(rec.get("lines", []))
+        bad = judge_fol(rec) if "crash" not in rec else {"crash": rec["crash"]}
+    else:
+        rec = engine.run_cases("fol", "run_store_program", [prog], jobs=1)[0]
+        bad = next((b for b in map(judge_store, rec.get("meta", {}).get("judgements", [])) if b), None)
+    print("REPRODUCED" if bad else "not reproduced", bad)
+    return 1 if bad else 0
